@@ -439,7 +439,7 @@ fn run(m: &Mon, a: &Args) -> i32 {
                 "{}{} Distinct cases are counted by inserting a 64-bit hash of each non-trivial case into a set (capped at {} per shard{}; counting is conservative beyond the cap).",
                 m.rule,
                 if ["C01", "C03", "C04", "C05", "C06", "C07", "C08"].contains(&m.id) {
-                    " Output buffers: one call in three that produced a packet is observed again into a buffer of exactly the reported length (or 1-2 bytes more) and that observation is the one judged; one in sixteen is repeated into a buffer 1-6 bytes too short, where a refusal or panic is not judged but a reported success is judged as the encoding it claims to be (observed_classes buffer:*). One random call in three runs after a history on the encoding context: earlier encodes, processed and decoded packets with foreign header bits, and conversations (a request to a peer followed by the peer's Success response to that command, with arguments and fields related to the addresses of the judged call)."
+                    " Output buffers: one call in three that produced a packet is observed again into a buffer of exactly the reported length (or 1-2 bytes more) and that observation is the one judged; one in twelve goes into a buffer of a landmark size (255, 256, 257, 260, 511, 512, 1024, 4096); one in sixteen is repeated into a buffer 1-6 bytes too short, where a refusal or panic is not judged but a reported success is judged as the encoding it claims to be (observed_classes buffer:*). One random call in three runs after a history on the encoding context: earlier encodes, processed and decoded packets with foreign header bits, and conversations (a request to a peer followed by the peer's Success response to that command, with arguments and fields related to the addresses of the judged call)."
                 } else {
                     ""
                 },
